@@ -120,3 +120,5 @@ func init() {
 		}
 	}
 }
+
+func setTTSize(mb int) { config.Settings.Search.TTSize = mb }
